@@ -83,6 +83,7 @@ Proof.
   - rewrite H, H0. cbn [b2n]. lia.
   - rewrite H, H0. cbn [b2n]. lia.
   - rewrite H, H0. cbn [b2n]. lia.
+  - discriminate.
 Qed.
 
 (* progress: descriptor = file at the path, undelivered bytes, not ended => somebody can move *)
@@ -175,6 +176,7 @@ Proof.
     + left. reflexivity.
     + destruct Wk as [X|[[X|X]|[X|X]]]; try discriminate; auto.
     + left. reflexivity.
+    + destruct Wk as [X|[[X|X]|[X|X]]]; try discriminate; auto.
   - left. repeat split; auto; congruence.
   - right. rewrite F, Ro. unfold open_cur. rewrite Pp. cbn. rewrite Pp, Nat.eqb_refl. split; [reflexivity|congruence].
   - left. rewrite F. cbn. repeat split; auto; congruence.
@@ -241,6 +243,7 @@ Proof.
   - rewrite H. destruct (rb s <=? sz); cbn [penv pfd ppcs rb pdel]; lia.
   - rewrite H. lia.
   - rewrite H. lia.
+  - discriminate.
 Qed.
 
 Lemma pprogress s off : pfd s = Some (ino (penv s), off) -> present (penv s) = true ->
@@ -350,6 +353,7 @@ Proof.
     rewrite H. repeat split; auto; try congruence; try lia.
   - right. destruct (qQ _ _ _ I sz H) as [Q1 Q2]. unfold open_cur. rewrite Pp.
     destruct (rb s <=? sz) eqn:Le; cbn [penv pfd ppcs rb pdel patt]; cbn; rewrite Pp, Nat.eqb_refl; repeat split; auto; congruence.
+  - discriminate.
 Qed.
 
 Lemma pcold_must k : forall s, cw s + 4 * undel pre (penv s) (pdel s) <= k -> PInv s -> PCold s ->
